@@ -31,3 +31,10 @@ def _(self):
     modifies()
     invariant(0, value == afold(elems(self._raw_operands), elems(self._raw_ops), fld('RawTokenModel._raw_text'), K))
     ensures(result == afold(elems(self._raw_operands), elems(self._raw_ops), fld('RawTokenModel._raw_text'), len(self._raw_ops)))
+
+# the value of a whole expression is the value of its sum (the getter adds nothing)
+@contract('NumberExpr.value')
+def _(self):
+    requires(AddShape(self._number_add_expr))
+    modifies()
+    ensures(result == afold(elems(self._number_add_expr._raw_operands), elems(self._number_add_expr._raw_ops), fld('RawTokenModel._raw_text'), len(self._number_add_expr._raw_ops)))
